@@ -6,3 +6,11 @@ REGISTRY: dict[str, dict] = {}
 
 def reg(pid, level, technique, text, note, design_ref, **kw):
     REGISTRY[pid] = dict(level=level, technique=technique, text=text, note=note, design_ref=design_ref, **kw)
+
+
+reg("C23", "model_checking", "TLA+ spec (SeqCounter, TunnelRx) model-checked with TLC; trace validation of real UDPTunnel/DeviceManagement receive histories",
+    "The receive rule is model-checked exhaustively for the real modulus (256 states x 256 inputs) and end to end against a lossy/duplicating/"
+    "reordering network with wrap-around (M=4); every recorded receive history of the real UDPTunnel and DeviceManagement classes "
+    "(exhaustive short histories, long random ones with two wrap-arounds and reconnects, TLC-simulated network behaviours) must be a behaviour of the spec.",
+    "Trusted: TLC, the virtual-time loop (real asyncio _run_once), the simulated gateway. Packet lifetime < M-1 frames is an explicit model assumption.",
+    "DESIGN.md section 5 C23")
